@@ -659,7 +659,12 @@ func main() {
 		}
 		return
 	}
-	r := vh.NewRng(vh.EnvSeed())
+	// vh.NewRng(seed) and vh.NewRng(seed+1) yield the same stream shifted by one draw: scramble the seed first
+	// so that VERIF_SEED=1,2,3 explore unrelated clusters (still one PRNG, fully determined by VERIF_SEED).
+	seed := vh.EnvSeed()
+	seed = (seed ^ (seed >> 30) ^ 0x6A09E667F3BCC909) * 0xBF58476D1CE4E5B9
+	seed = (seed ^ (seed >> 27)) * 0x94D049BB133111EB
+	r := vh.NewRng(seed ^ (seed >> 31))
 	ru := &run{out: vh.NewOut(path), r: r, lookup: map[string]int{}}
 	mult := 1
 	if tier == "thorough" {
